@@ -20,7 +20,7 @@ TEXT = {
                  "truncate_len_le (<= M+3), truncate_short, caret_prefix_len/_tabs (tab-for-tab prefix), window_sound/_complete/_has_reported_line "
                  "(excerpt lines are the numbered source lines L-2..L+1 clamped), truncateG_total (no slice expression can be out of range), "
                  "no_excerpt (unreadable / short file => header only). The model's whole message is compared byte for byte with "
-                 "Reporter.ReportViolation over the length x column x byte-pattern x file-shape grid.",
+                 "Reporter.ReportViolation over the length x column x byte-pattern x file-shape grid. gutter_aligned: numbered rows and the caret row start the text at the same offset for all line numbers (digit-count monotonicity of a structural %d); render_help_link: every message ends with the documentation link.",
         "note": TB + "Modelled rather than verified: reporter.go (hand model, byte-exact differential tie). Byte columns, not visual columns.",
         "technique": "Lean 4 proofs (index arithmetic over List UInt8, case split on the three truncation regimes) + byte-exact differential correspondence on a boundary grid",
     },
@@ -38,7 +38,7 @@ TEXT = {
                  "followed by end or blank: other case, longer words, mid-sentence, block comments are inert), list_names_valid / constructor_names / ignore_codes_upper "
                  "(captured arguments are well-formed identifiers / paths / upper-cased codes, non-empty where required), prefilter_complete (the pre-filter only drops "
                  "lines the grammar rejects). The regexes are tied to the recognisers by comparing all seven verdicts on every token sequence up to a bound and on seeded byte mutations, "
-                 "through the real ReadAllAnnotations / ReadIgnoreAnnotations. Attachment sites are covered by the whole-program suites (C01-C04, C09).",
+                 "through the real ReadAllAnnotations / ReadIgnoreAnnotations. Attachment sites are covered by the whole-program suites (C01-C04, C09). List arguments in both directions: list_complete (documented shape => recognised with exactly its items) and list_sound (recognised => the line decomposes in exactly that way).",
         "note": TB + "Modelled rather than verified: the regexes (closed-form recognisers + bounded-exhaustive differential tie); maximal-munch completeness of list arguments is tied by correspondence, not proved.",
         "technique": "Lean 4 proofs (recogniser = relational grammar for bare keywords; soundness/exactness for argument keywords) + bounded-exhaustive and fuzz differential correspondence against the regexes",
     },
@@ -73,7 +73,7 @@ TEXT = {
         "technique": "Lean 4 proof (dedup fold = first-unsuppressed-reference specification; allow-list = union) + whole-program differential correspondence",
     },
     "C06": {
-        "level": 'PARTIAL proof: table theorems decided over the regenerated T3/T4 (every fact field exported and gob-transmissible; one distinct fact type per analyzer; no data-dependent return precedes ExportPackageFact) plus import_uniform / depends_only_on_direct_imports over the model; what the model cannot exhibit (gob bytes, vetx files, the drivers) is exercised: standalone ./..., go vet -vettool, leaf-only, random subsets / orders, in-process with the gob sanity check must all report the same.',
+        "level": 'PARTIAL proof: table theorems decided over the regenerated T3/T4 (every fact field exported and gob-transmissible; one distinct fact type per analyzer; no data-dependent return precedes ExportPackageFact) plus import_uniform / depends_only_on_direct_imports over the model; what the model cannot exhibit (gob bytes, vetx files, the drivers) is exercised: standalone ./..., go vet -vettool, leaf-only, random subsets / orders, in-process with the gob sanity check must all report the same. importer_as_declarer: two analysed packages whose environments hold the same entries about package P give, outside P\'s constructors, the same verdicts on writes / instantiations / @testonly calls over P\'s types; tied by the probe comparison (the same labelled statements in the declaring package and in every direct importer) and by driver runs under scan-tests-by-environment and excluded directories.',
         "note": TB + "Modelled rather than verified: see DESIGN.md §9 / §11.",
         "technique": 'Lean 4 decide over regenerated tables + index lemmas; driver-differential correspondence (standalone vs go vet vs in-process)',
     },
@@ -93,22 +93,22 @@ TEXT = {
         "technique": 'Lean 4 proof (emptiness of annotation reading + early returns) + corpus runs of the real binary',
     },
     "C10": {
-        "level": 'PARTIAL proof: the partial operations of the modelled code are proven safe (IgnoreSet index lookups in range along every history; no slice of the renderer out of range; line-window indices inside the file); all model functions are total. Crashes are outcomes in the correspondence: both drivers x configurations on generated programs (package-level initialisers first, //line directives, all placements) and the witness corpus; in-process runs wrap every analyzer in recover.',
+        "level": 'PARTIAL proof: the partial operations of the modelled code are proven safe (IgnoreSet index lookups in range along every history; no slice of the renderer out of range; line-window indices inside the file); all model functions are total. Crashes are outcomes in the correspondence: both drivers x configurations on generated programs (package-level initialisers first, //line directives, all placements) and the witness corpus; in-process runs wrap every analyzer in recover. Also: the real analyzers in-process on 19 / 49 standard-library packages overlaid with injected annotations of every kind (std suite), the excerpt suite for panics, self-referential and generic declarations under both drivers with a time limit per run.',
         "note": TB + "Modelled rather than verified: see DESIGN.md §9 / §11.",
         "technique": 'Lean 4 safety lemmas for the modelled partial operations + crash-outcome correspondence (in-process recover, binary exit status / stderr)',
     },
     "C11": {
-        "level": "PARTIAL proof: shared_state_justified decided over the regenerated inventory of package-level variables and write sites (only cachedConfig is assigned after init, under configOnce.Do); once_deterministic: for every schedule of N workers doing Once.Do(init); read, every read returns init's value; index and reported-key order independence (C12). The real binary's normalised output is byte-compared across repeated, sequential, permuted, differently scheduled runs; a -race build is search support.",
+        "level": "PARTIAL proof: shared_state_justified decided over the regenerated inventory of package-level variables and write sites (only cachedConfig is assigned after init, under configOnce.Do); once_deterministic: for every schedule of N workers doing Once.Do(init); read, every read returns init's value; index and reported-key order independence (C12). The real binary's normalised output is byte-compared across repeated, sequential, permuted, differently scheduled runs; a -race build is search support. shared_lookups_read_only (T9, regenerated): of the methods the concurrently running checkers call on reader / utility types only the per-pass index builders write their receiver's state. The race-detector build runs in every tier.",
         "note": TB + "Modelled rather than verified: see DESIGN.md §9 / §11.",
         "technique": 'Lean 4: decide over regenerated table + invariant over all interleavings of a small transition system; run-to-run differential correspondence',
     },
     "C12": {
-        "level": "Theorems: move_decl / perm_decls (permuting or moving declarations between scanned files permutes the IMM/CTOR diagnostics: each declaration's verdict is local), annotations_order_free and index_order_free (indices depend only on the set of annotations), reported_keys_order_free (a once-per-file key is reported iff it has an unsuppressed use, whatever the order). Blank lines / comments / renaming are tied by the metamorphic layout suite on the real analyzers.",
+        "level": "Theorems: move_decl / perm_decls (permuting or moving declarations between scanned files permutes the IMM/CTOR diagnostics: each declaration's verdict is local), annotations_order_free and index_order_free (indices depend only on the set of annotations), reported_keys_order_free (a once-per-file key is reported iff it has an unsuppressed use, whatever the order). Blank lines / comments / renaming are tied by the metamorphic layout suite on the real analyzers. relayout_invariant: for every strictly increasing position map fixing 0 and injective line map (blank lines, comments, gofmt), analyze of the re-laid-out package has the same annotations and the image diagnostics - proved through all four walks, the @ignore reader and the suppression decision.",
         "note": TB + "Modelled rather than verified: see DESIGN.md §9 / §11.",
         "technique": 'Lean 4 proofs (List.Perm invariance, order-free characterisations) + metamorphic correspondence on layout variants',
     },
     "C13": {
-        "level": 'Theorems: classify_respects_identity (typeInfo / varTypeInfo / typeName depend only on the alias-free normal form) and respell_invariant (every per-node verdict of the four checkers is equal for identical types), paren_invariant. Tied by the metamorphic spelling suite: alias, renamed import, parenthesised spellings of every use site must give the same keyed diagnostics as the direct spelling.',
+        "level": 'Theorems: classify_respects_identity (typeInfo / varTypeInfo / typeName depend only on the alias-free normal form) and respell_invariant (every per-node verdict of the four checkers is equal for identical types), paren_invariant. Tied by the metamorphic spelling suite: alias, renamed import, parenthesised spellings of every use site must give the same keyed diagnostics as the direct spelling. respell_program_invariant: re-spelling every use-site type of a package by an identical one changes neither annotations nor diagnostics of the whole analysis.',
         "note": TB + "Modelled rather than verified: see DESIGN.md §9 / §11.",
         "technique": 'Lean 4 proofs (normal form of alias/pointer/named types) + metamorphic correspondence on spelling variants',
     },
